@@ -101,6 +101,7 @@ type c04Series struct {
 	Fp     uint64
 	Type   uint8
 	Doc    string
+	Key    uint64 // fingerprint-cache key of the row (ParserResponse.TimeSeriesFpKeys), 0 when not handed out
 }
 type c04Sample struct {
 	Fp   uint64
@@ -124,7 +125,11 @@ func c04Collect(ch chan *model.ParserResponse) c04Out {
 		out.Chunks++
 		if ts, ok := r.TimeSeriesRequest.(*model.TimeSeriesData); ok && ts != nil {
 			for i := range ts.MDate {
-				out.Series = append(out.Series, c04Series{Date: ts.MDate[i].Unix(), Stored: c04ToDate(ts.MDate[i]), Fp: ts.MFingerprint[i], Type: ts.MType[i], Doc: ts.MLabels[i]})
+				row := c04Series{Date: ts.MDate[i].Unix(), Stored: c04ToDate(ts.MDate[i]), Fp: ts.MFingerprint[i], Type: ts.MType[i], Doc: ts.MLabels[i]}
+				if len(r.TimeSeriesFpKeys) == len(ts.MDate) {
+					row.Key = r.TimeSeriesFpKeys[i]
+				}
+				out.Series = append(out.Series, row)
 			}
 		}
 		if sp, ok := r.SamplesRequest.(*model.TimeSamplesData); ok && sp != nil {
@@ -701,13 +706,16 @@ func c04LabelStream(r *h.Result, rng *h.Rng, nSets, maxLabels, allPermsUpTo int,
 func c04(r *h.Result, rng *h.Rng, tier string, replay string) error {
 	c04Setup()
 	nSets, maxLabels, nDocs, nHist, histOps := 500, 5, 3000, 200, 30
+	nPipe, nUtf8 := 300, 3000
 	zones := []string{"UTC", "Pacific/Kiritimati", "Pacific/Pago_Pago", "America/Los_Angeles"}
 	switch tier {
 	case "quick":
 	case "search": // after a broken obligation: wider than quick, aimed at an oracle failure
 		nSets, maxLabels, nDocs, nHist = 1500, 8, 3000, 800
+		nPipe, nUtf8 = 1500, 10000
 	default:
 		nSets, maxLabels, nDocs, nHist, histOps = 20000, 12, 60000, 5000, 30
+		nPipe, nUtf8 = 8000, 100000
 		zones = append(zones, "Asia/Kolkata", "America/St_Johns", "Pacific/Chatham", "Asia/Kathmandu", "Europe/Berlin")
 	}
 	r.Rule = "labels: sets of ≤5 (thorough ≤12) labels with distinct sanitized names, 3/4 fixed points of the sanitisation (names [a-zA-Z_][a-zA-Z0-9_]*, values ≤13 runes, half of them from control/quote/DEL/non-BMP/line-separator runes), 1/4 needing sanitisation (arbitrary bytes, invalid UTF-8, values cut at byte 100 inside a rune), all permutations for ≤5 labels (thorough: ≤4; otherwise identity, reverse and 10 random orders), identity order through every protocol that can carry the set; non-trivial = ≥2 labels or needs sanitising; distinct by (protocol, labels as sent). " +
@@ -730,6 +738,14 @@ func c04(r *h.Result, rng *h.Rng, tier string, replay string) error {
 		return err
 	}
 	lap("labels")
+	if err := c04PipeStream(r, rng.Fork(), nPipe, nil); err != nil {
+		return err
+	}
+	lap("pipeline")
+	if err := c04Utf8Stream(r, rng.Fork(), nUtf8, ""); err != nil {
+		return err
+	}
+	lap("utf8")
 	if err := c04JSONStream(r, rng.Fork(), nDocs, ""); err != nil {
 		return err
 	}
@@ -776,6 +792,20 @@ func c04Replay(r *h.Result, path string) error {
 			return err
 		}
 		return c04LabelStream(r, h.NewRng(1), 0, 0, 5, &c)
+	case "pipeline":
+		var c c04PipeReplay
+		if err := json.Unmarshal(f.Replay, &c); err != nil {
+			return err
+		}
+		return c04PipeStream(r, h.NewRng(1), 0, &c)
+	case "utf8":
+		var c struct {
+			B string `json:"bytes_hex"`
+		}
+		if err := json.Unmarshal(f.Replay, &c); err != nil {
+			return err
+		}
+		return c04Utf8Stream(r, h.NewRng(1), 0, c.B)
 	case "json":
 		var c struct {
 			Doc string `json:"doc_hex"`
